@@ -183,6 +183,25 @@ var ruleDynCalls = &core.Rule{ID: "R01.3", Min: 4,
 						s.OK(key, c.Pos(ci.Pos()), "captured function value")
 						continue
 					}
+					if ia, ok := v.X.(*ssa.IndexAddr); ok {
+						// element of the function list of the first-non-empty combinator: every call site passes a list
+						// of function constants (stagesOf), so no element is nil
+						if _, fsI, isComb := firstNonEmpty(f); isComb && ia.X == ssa.Value(f.Params[fsI]) {
+							okAll, n := true, 0
+							for _, g := range c.AllModFuncs() {
+								for _, c2 := range core.Calls(g) {
+									if c2.Common().StaticCallee() == f {
+										n++
+										if stagesOf(g) == nil {
+											okAll = false
+										}
+									}
+								}
+							}
+							s.Check(okAll && n > 0, key, c.Pos(ci.Pos()), "element of a list of function constants at every call site", "the combinator may be handed a nil or unknown function")
+							continue
+						}
+					}
 					if g, ok := v.X.(*ssa.Global); ok {
 						_, ctor, _ := tree.ClosureOfGlobal(g.Pkg, g)
 						fn, _, _ := tree.ClosureOfGlobal(g.Pkg, g)
@@ -349,6 +368,27 @@ func namedLoop(c *core.Ctx, wm *walkModel, l e2.LoopRes) (string, bool) {
 						for _, r2 := range *bo.Referrers() {
 							if iff, ok := r2.(*ssa.If); ok && retOf(iff.Block().Succs[0]) != nil {
 								return "external iterator html.Tokenizer.Next: ErrorToken returns; a tokenizer over a finite byte slice eventually reports it (contract)", true
+							}
+						}
+					}
+				}
+				// for tt := z.Next(); tt != ErrorToken; tt = z.Next(): the token is a phi of Next results, tested at the header
+				if iff := core.IfOf(h); iff != nil {
+					if bo, ok := iff.Cond.(*ssa.BinOp); ok && (bo.Op == token.NEQ || bo.Op == token.EQL) && core.IsConstInt(bo.Y, 0) {
+						if ph, ok := bo.X.(*ssa.Phi); ok && ph.Block() == h {
+							allNext := true
+							for _, e := range ph.Edges {
+								nc, ok := e.(*ssa.Call)
+								if !ok || !core.MethodCalleeIs(&nc.Call, pkgHTML, "Tokenizer", "Next") {
+									allNext = false
+								}
+							}
+							exit := h.Succs[1]
+							if bo.Op == token.EQL {
+								exit = h.Succs[0]
+							}
+							if allNext && !body[exit] {
+								return "external iterator html.Tokenizer.Next: the loop runs while the token is not ErrorToken; a tokenizer over a finite byte slice eventually reports it (contract)", true
 							}
 						}
 					}
